@@ -125,7 +125,9 @@ Fixpoint headers_loop (s : sync) (last_hash : Z) (hs : list hdr) (acc : list Z) 
                                  then let '(s5, send) := request_block s4 prev id in (s5, if send then acc ++ [id] else acc)
                                  else (s4, acc) in
               headers_loop s5 id hs' acc1 true
-        | None => (s, None, modified)     (* unknown header *)
+        | None => (upd_was (upd_ready s false) false, None, modified)
+            (* unknown header: `return nil, nil` (accumulated getdata dropped); the node is behind the
+               peer, ClearInSync makes the periodic check poll with a locator again (fix a4501ac) *)
         end
   end.
 
@@ -230,8 +232,9 @@ Definition check (s : sync) : sync * list out :=
   if ready s1 then
     let o2 := if negb (sent_sendheaders s1) then [OutSendHeaders] else [] in
     let o3 := if negb (addrs_requested s1) then [OutGetAddr] else [] in
-    let o4 := if negb (notified s1) then [OutInSync] else [] in
-    (Sync (chain s1) (rq s1) (valid_of s1) (ready s1) (pending_sync s1) true true
+    (* notified only when no announced block is outstanding (fix 488f33b) *)
+    let o4 := if negb (notified s1) && requests_empty (rq s1) then [OutInSync] else [] in
+    (Sync (chain s1) (rq s1) (valid_of s1) (ready s1) (pending_sync s1) true (notified s1 || requests_empty (rq s1))
           (start_height s1) (start_hash s1) (version_received s1) (handshake_complete s1) true true
           (headers_requested s1) (connected s1) (req_times s1) (now s1),
      o1 ++ o2 ++ o3 ++ o4)
